@@ -18,7 +18,8 @@ func main() {
 	run := ev.Start("C03")
 	gen2.Run(run)
 	gen1.Run(run)
-	envelopes(run) // wire envelopes of every method kind: v2 (hand-written kit through the generic client functions)
+	gen2.Envelopes(run) // wire envelopes of every method kind (hand-written kit through the generic client functions)
+	gen1.Envelopes(run)
 	run.Set("generations", []string{"v2", "root"})
 	run.Finish()
 }
